@@ -104,6 +104,23 @@ CHECKS = {
             'Trusted: VC generator, typestate analysis, clang, z3/cvc5. Assumed: mjv_initGeom writes only its geom; plugin callbacks '
             'respect the discipline. Not decided (listed): that the scene holds exactly the enabled geoms with their poses, determinism.',
             'contracts + typestate VC + frame scan over the clang AST, z3 LIA+arrays'),
+    'C13': ('DESIGN.md section 4 / C13',
+            'Deductive proof over the reals on the real bodies of the sphere-plane and sphere-sphere colliders: a contact is reported '
+            'exactly when the signed surface distance is within the margin, dist is that distance, the normal is the unit plane normal / '
+            'points from geom 1 to geom 2, pos is the midpoint of the two surface points; and mju_makeFrame builds an orthonormal frame whose '
+            'first row is the normalised normal when the tangent is left undefined (as all primitive colliders do).',
+            'Trusted: VC generator, clang, z3/cvc5; doubles as reals, sqrt abstraction. Not covered (listed): capsule/cylinder/box colliders, '
+            'mj_geomDistance, GJK/EPA; mju_makeFrame with a supplied tangent.',
+            'contracts + symbolic execution of the real bodies, z3/cvc5 NRA'),
+    'C14': ('DESIGN.md section 4 / C14',
+            'Deductive proof of the filter predicates: filterBitmask (bit-vectors: filtered iff no shared contype/conaffinity bit, symmetric), '
+            'filterBodyPair (the documented rules as a truth table, symmetric in the two bodies), canCollide2, and soundness of the geometric '
+            'filters over the reals: filterBox / filterSphereBox discard a pair only if every two points of the margin-inflated volumes are '
+            'farther apart than the margin (so a pair within margin is never dropped), filterBox keeps only boxes that really touch within '
+            'margin, filterSphere discards iff centres are farther than the bound; all symmetric.',
+            'Trusted: VC generator, clang, z3/cvc5; geometric filters over the reals. Not covered: SAP broad phase, BVH mid phase, completeness '
+            'of the whole pair enumeration.',
+            'contracts (+ symmetry client lemmas), z3 QF_BV / LRA with quantified geometric soundness clauses'),
 }
 
 NA = {
